@@ -71,6 +71,25 @@ fn peer_headers(role: Role, kind: &str) -> Vec<u8> {
             f.remove(0); // missing :method / :status
         }
         "hm2" => f.push((":bogus", b"1".to_vec())), // undefined pseudo-header field
+        "hm3" => f.push(("x-v", vec![b'a', 0, b'b'])), // NUL in a field value (InvalidHeaderValue)
+        "hm4" => match role {
+            // request without :authority and host (MissingAuthority) / response with an unparsable :status
+            Role::Server => f.retain(|(n, _)| *n != ":authority"),
+            Role::Client => f[0].1 = b"2x0".to_vec(),
+        },
+        "hm5" => match role {
+            // :authority and host disagree (ContradictedAuthority) / :status out of range
+            Role::Server => f.push(("host", b"b".to_vec())),
+            Role::Client => f[0].1 = b"99".to_vec(),
+        },
+        "hm6" => match role {
+            // an empty host instead of :authority: the URI cannot be built (InvalidRequest)
+            Role::Server => {
+                f.retain(|(n, _)| *n != ":authority");
+                f.push(("host", Vec::new()));
+            }
+            Role::Client => f.push(("X-Up", b"1".to_vec())),
+        },
         // sections RFC 9114 calls malformed but h3's gate (C12) accepts: tolerated, they are healthy messages here
         "hk0" => {
             let p = f.remove(0); // a pseudo-header field after a regular field
@@ -228,6 +247,11 @@ struct Obs {
     sres: Option<String>,
     send_task: Option<Task>,
     split: bool,
+    /// persistent pattern: scopes of the results of the calls made AFTER the first error (o = ok, s = stream, c = connection)
+    persist: bool,
+    later: String,
+    /// a connection-level error was reported: a persistent task stops there (the connection is gone)
+    conn_dead: bool,
     data: Vec<u8>,
     trailers: bool,
     sid: Option<u64>,
@@ -434,6 +458,125 @@ async fn server_task_split(resolver: h3::server::RequestResolver<SimConn, Bytes>
     recv_body!(recv, o);
     recv_trl!(recv, o);
     o.borrow_mut().res = Some("ok".into());
+    String::new()
+}
+
+/// persistent pattern: the application does not give up at the first error, it keeps calling the API on the request
+fn note(o: &ObsRef, api: &str, r: Result<(), &h3::error::StreamError>) {
+    let mut g = o.borrow_mut();
+    match r {
+        Ok(()) => {
+            if g.res.is_some() {
+                g.later.push('o');
+            }
+        }
+        Err(e) => {
+            let se = stream_err(e);
+            if se.starts_with("c:") {
+                g.conn_dead = true;
+            }
+            if g.res.is_none() {
+                g.res = Some(format!("err:{}:{}", api, se));
+            } else {
+                g.later.push(if se.starts_with("c:") { 'c' } else { 's' });
+            }
+        }
+    }
+}
+
+macro_rules! recv_persist {
+    ($stream:expr, $o:expr) => {{
+        let mut clean = true;
+        loop {
+            match $stream.recv_data().await {
+                Ok(Some(mut d)) => {
+                    let b = d.copy_to_bytes(d.remaining());
+                    if $o.borrow().res.is_none() {
+                        $o.borrow_mut().data.extend_from_slice(&b);
+                    }
+                }
+                Ok(None) => break,
+                Err(e) => {
+                    note(&$o, "recv", Err(&e));
+                    clean = false;
+                    // ask again, twice: the error must stay on the stream
+                    for _ in 0..2 {
+                        if $o.borrow().conn_dead {
+                            break;
+                        }
+                        match $stream.recv_data().await {
+                            Ok(_) => note(&$o, "recv", Ok(())),
+                            Err(e) => note(&$o, "recv", Err(&e)),
+                        }
+                    }
+                    break;
+                }
+            }
+        }
+        if clean {
+            // (after a failed recv_data the frame reader may be inside a payload: recv_trailers is not a legal call then)
+            for _ in 0..2 {
+                if $o.borrow().conn_dead {
+                    break;
+                }
+                match $stream.recv_trailers().await {
+                    Ok(Some(_)) => {
+                        if $o.borrow().res.is_none() {
+                            $o.borrow_mut().trailers = true;
+                        }
+                        note(&$o, "recvtrl", Ok(()))
+                    }
+                    Ok(None) => note(&$o, "recvtrl", Ok(())),
+                    Err(e) => note(&$o, "recvtrl", Err(&e)),
+                }
+            }
+        }
+    }};
+}
+
+async fn server_task_persist(resolver: h3::server::RequestResolver<SimConn, Bytes>, o: ObsRef, body: Vec<u8>, pad: usize, tz: Option<u64>) -> String {
+    let (_req, mut stream) = match resolver.resolve_request().await {
+        Ok(x) => x,
+        Err(e) => return fail(&o, "resolve", &e),
+    };
+    recv_persist!(stream, o);
+    if o.borrow().conn_dead {
+        return String::new();
+    }
+    yield_now().await;
+    note(&o, "sendresp", stream.send_response(response(pad)).await.as_ref().map(|_| ()));
+    yield_now().await;
+    note(&o, "senddata", stream.send_data(Bytes::from(body)).await.as_ref().map(|_| ()));
+    if let Some(m) = our_trailers(tz) {
+        note(&o, "sendtrl", stream.send_trailers(m).await.as_ref().map(|_| ()));
+    }
+    note(&o, "finish", stream.finish().await.as_ref().map(|_| ()));
+    if o.borrow().res.is_none() {
+        o.borrow_mut().res = Some("ok".into());
+    }
+    String::new()
+}
+
+async fn client_task_persist(mut sr: h3::client::SendRequest<SimOpener, Bytes>, o: ObsRef, body: Vec<u8>, pad: usize, tz: Option<u64>) -> String {
+    let mut stream = match sr.send_request(request(pad)).await {
+        Ok(s) => s,
+        Err(e) => return fail(&o, "sendreq", &e),
+    };
+    o.borrow_mut().sid = Some(stream.id().into_inner());
+    yield_now().await;
+    note(&o, "senddata", stream.send_data(Bytes::from(body)).await.as_ref().map(|_| ()));
+    if let Some(m) = our_trailers(tz) {
+        note(&o, "sendtrl", stream.send_trailers(m).await.as_ref().map(|_| ()));
+    }
+    note(&o, "finish", stream.finish().await.as_ref().map(|_| ()));
+    match stream.recv_response().await {
+        Ok(_) => note(&o, "recvresp", Ok(())),
+        Err(e) => note(&o, "recvresp", Err(&e)),
+    }
+    recv_persist!(stream, o);
+    if o.borrow().res.is_none() {
+        o.borrow_mut().res = Some("ok".into());
+    }
     String::new()
 }
 
@@ -730,7 +873,9 @@ fn run_case(role: Role, reqs: &[ReqSpec], sched: &[&str], grease: bool, unk: boo
                 for i in 0..n {
                     let (o, b, p, t) = (obs[i].clone(), reqs[i].body.clone(), reqs[i].pad, reqs[i].trl);
                     obs[i].borrow_mut().split = reqs[i].mode == 's';
+                    obs[i].borrow_mut().persist = reqs[i].mode == 'p';
                     task[i] = Some(match reqs[i].mode {
+                        'p' => ex.spawn(client_task_persist(sr.clone(), o, b, p, t)),
                         'e' => ex.spawn(client_task_early(sr.clone(), o, b, p, t)),
                         's' => ex.spawn(client_task_split(sr.clone(), o, b, p, t)),
                         _ => ex.spawn(client_task_plain(sr.clone(), o, b, p, t)),
@@ -809,7 +954,9 @@ fn run_case(role: Role, reqs: &[ReqSpec], sched: &[&str], grease: bool, unk: boo
                         obs[i].borrow_mut().sid = Some(4 * i as u64);
                         let (o, b, p, t) = (obs[i].clone(), reqs[i].body.clone(), reqs[i].pad, reqs[i].trl);
                         obs[i].borrow_mut().split = reqs[i].mode == 's';
+                        obs[i].borrow_mut().persist = reqs[i].mode == 'p';
                         task[i] = Some(match reqs[i].mode {
+                            'p' => ex.spawn(server_task_persist(r, o, b, p, t)),
                             'e' => ex.spawn(server_task_early(r, o, b, p, t)),
                             's' => ex.spawn(server_task_split(r, o, b, p, t)),
                             _ => ex.spawn(server_task(r, o, b, p, t)),
@@ -928,7 +1075,8 @@ fn run_case(role: Role, reqs: &[ReqSpec], sched: &[&str], grease: bool, unk: boo
             }
             None => ("-".to_string(), "-".to_string()),
         };
-        out.push(format!("{};d={};tr={};t={};c={}", res, hex(&o.data), if o.trailers { 1 } else { 0 }, t, c));
+        let later = if o.persist { format!(";l={}", if o.later.is_empty() { "-" } else { &o.later }) } else { String::new() };
+        out.push(format!("{};d={};tr={};t={};c={}{}", res, hex(&o.data), if o.trailers { 1 } else { 0 }, t, c, later));
     }
     let closes: Vec<String> = g.log.iter().filter_map(|l| l.strip_prefix("close ")).map(|r| r.split(' ').next().unwrap().to_string()).collect();
     let conn = format!(
